@@ -655,6 +655,7 @@ static bool mmap_body_in_file(const carquet_reader_t* file_reader, int64_t offse
 
 static carquet_status_t load_dictionary_page_mmap(
     carquet_column_reader_t* reader,
+    int64_t dict_offset,
     carquet_error_t* error) {
 
     carquet_reader_t* file_reader = reader->file_reader;
@@ -662,7 +663,6 @@ static carquet_status_t load_dictionary_page_mmap(
     const parquet_column_metadata_t* col_meta = reader->col_meta;
 
     /* Parse page header directly from mmap */
-    int64_t dict_offset = col_meta->dictionary_page_offset;
     size_t header_avail = mmap_header_window(file_reader, dict_offset);
     if (header_avail < 8) {
         CARQUET_SET_ERROR(error, CARQUET_ERROR_INVALID_PAGE, "Dictionary page offset outside file");
@@ -789,6 +789,7 @@ static size_t file_read_at(FILE* file, int64_t offset, void* buf, size_t size) {
 
 static carquet_status_t load_dictionary_page_fread(
     carquet_column_reader_t* reader,
+    int64_t dict_offset,
     carquet_error_t* error) {
 
     carquet_reader_t* file_reader = reader->file_reader;
@@ -797,7 +798,7 @@ static carquet_status_t load_dictionary_page_fread(
 
     /* Seek to dictionary page and read page header */
     uint8_t header_buf[256];
-    size_t header_read = file_read_at(file, col_meta->dictionary_page_offset,
+    size_t header_read = file_read_at(file, dict_offset,
                                       header_buf, sizeof(header_buf));
     if (header_read == (size_t)-1) {
         CARQUET_SET_ERROR(error, CARQUET_ERROR_FILE_SEEK, "Failed to seek to dictionary");
@@ -835,7 +836,7 @@ static carquet_status_t load_dictionary_page_fread(
     }
 
     /* Seek past header and read page data */
-    size_t data_read = file_read_at(file, col_meta->dictionary_page_offset + (int64_t)header_size,
+    size_t data_read = file_read_at(file, dict_offset + (int64_t)header_size,
                                     compressed, (size_t)page_header.compressed_page_size);
     if (data_read == (size_t)-1) {
         free(compressed);
@@ -898,7 +899,7 @@ static carquet_status_t load_dictionary_page_fread(
      * dictionary-encoded columns. The reliable offset is always right
      * after the dictionary page: dict_offset + header + compressed data. */
     if (status == CARQUET_OK) {
-        reader->data_start_offset = col_meta->dictionary_page_offset +
+        reader->data_start_offset = dict_offset +
                                     (int64_t)header_size +
                                     page_header.compressed_page_size;
     }
@@ -927,7 +928,8 @@ static carquet_status_t load_next_page_mmap(
 
     /* Load dictionary if needed (may update data_start_offset) */
     if (col_meta->has_dictionary_page_offset && !reader->has_dictionary) {
-        carquet_status_t status = load_dictionary_page_mmap(reader, error);
+        carquet_status_t status = load_dictionary_page_mmap(
+            reader, col_meta->dictionary_page_offset, error);
         if (status != CARQUET_OK) {
             return status;
         }
@@ -948,6 +950,29 @@ static carquet_status_t load_next_page_mmap(
         header_ptr, header_avail, &page_header, &header_size, error);
     if (status != CARQUET_OK) {
         return status;
+    }
+
+    /* Writers that do not set dictionary_page_offset store the dictionary page
+     * where data_page_offset points: the chunk's first page is then a dictionary
+     * page, followed by the data pages. */
+    if (page_header.type == CARQUET_PAGE_DICTIONARY && !reader->has_dictionary &&
+        reader->current_page == 0) {
+        status = load_dictionary_page_mmap(reader, page_offset, error);
+        if (status != CARQUET_OK) {
+            return status;
+        }
+        page_offset = reader->data_start_offset;
+        header_avail = mmap_header_window(file_reader, page_offset);
+        if (header_avail < 8) {
+            CARQUET_SET_ERROR(error, CARQUET_ERROR_INVALID_PAGE, "Data page offset outside file");
+            return CARQUET_ERROR_INVALID_PAGE;
+        }
+        header_ptr = mmap_data + page_offset;
+        status = parquet_parse_page_header(
+            header_ptr, header_avail, &page_header, &header_size, error);
+        if (status != CARQUET_OK) {
+            return status;
+        }
     }
 
     if (page_header.type != CARQUET_PAGE_DATA && page_header.type != CARQUET_PAGE_DATA_V2) {
@@ -1161,7 +1186,8 @@ static carquet_status_t load_next_page_fread(
 
     /* Load dictionary if needed (may update data_start_offset) */
     if (col_meta->has_dictionary_page_offset && !reader->has_dictionary) {
-        carquet_status_t status = load_dictionary_page_fread(reader, error);
+        carquet_status_t status = load_dictionary_page_fread(
+            reader, col_meta->dictionary_page_offset, error);
         if (status != CARQUET_OK) {
             return status;
         }
@@ -1187,6 +1213,32 @@ static carquet_status_t load_next_page_fread(
         header_buf, header_read, &page_header, &header_size, error);
     if (status != CARQUET_OK) {
         return status;
+    }
+
+    /* Writers that do not set dictionary_page_offset store the dictionary page
+     * where data_page_offset points: the chunk's first page is then a dictionary
+     * page, followed by the data pages. */
+    if (page_header.type == CARQUET_PAGE_DICTIONARY && !reader->has_dictionary &&
+        reader->current_page == 0) {
+        status = load_dictionary_page_fread(reader, data_offset, error);
+        if (status != CARQUET_OK) {
+            return status;
+        }
+        data_offset = reader->data_start_offset;
+        header_read = file_read_at(file, data_offset, header_buf, sizeof(header_buf));
+        if (header_read == (size_t)-1) {
+            CARQUET_SET_ERROR(error, CARQUET_ERROR_FILE_SEEK, "Failed to seek to data page");
+            return CARQUET_ERROR_FILE_SEEK;
+        }
+        if (header_read < 8) {
+            CARQUET_SET_ERROR(error, CARQUET_ERROR_FILE_READ, "Failed to read page header");
+            return CARQUET_ERROR_FILE_READ;
+        }
+        status = parquet_parse_page_header(
+            header_buf, header_read, &page_header, &header_size, error);
+        if (status != CARQUET_OK) {
+            return status;
+        }
     }
 
     if (page_header.type != CARQUET_PAGE_DATA && page_header.type != CARQUET_PAGE_DATA_V2) {
